@@ -12,6 +12,9 @@
 import IgrisModel.C17.Lemmas
 import IgrisModel.C17.RefLemmas
 import IgrisModel.C17.LenLemmas
+import IgrisModel.C17.R3Lemmas
+import IgrisModel.C17.R3Witness
+import IgrisModel.C17.Gf2Lemmas
 namespace Igris.C17
 open Igris.Proto
 
@@ -324,5 +327,298 @@ theorem crc32_tail_witness :
 
 -- non-vacuity of `crc32_chain_partial`'s hypothesis
 example : ([1#8, 2#8, 3#8, 4#8] : List Byte).length % 4 = 0 := by decide
+
+
+/-! # Extension round 3
+
+## index-level models, counters at their C width, every access logged
+
+`mem` = EXACTLY the bytes mapped at the pointer (a read at an offset `≥
+mem.length` faults), the length argument with its C type, the log starts
+empty.  Each theorem: the routine completes iff `[0, len)` is mapped, returns
+the list-level value of those bytes, and its accesses are exactly the reads
+`rd 0, rd 1, …, rd (len-1)` — every byte of `[0, len)` once, in ascending
+order, nothing else, no store. -/
+
+theorem crc8Table_access (mem : List Byte) (len seed : BitVec 8) :
+    crc8TableG (listRd mem) logEv len seed [] =
+      if len.toNat ≤ mem.length then
+        some (crc8Table (mem.take len.toNat) seed, (List.range len.toNat).map Ev.rd) else none := by
+  rw [crc8TableG, whileDecG_spec tblStep logEv mem sub1_8 256 len 0 seed [] len.isLt (Nat.zero_le _)]
+  simp [logRange_logEv, List.range_eq_range', crc8Table]
+
+theorem crc8_access (mem : List Byte) (len seed : BitVec 8) :
+    crc8G (listRd mem) logEv len seed [] =
+      if len.toNat ≤ mem.length then
+        some (crc8 (mem.take len.toNat) seed, (List.range len.toNat).map Ev.rd) else none := by
+  rw [crc8G, whileDecG_spec dowStep logEv mem sub1_8 256 len 0 seed [] len.isLt (Nat.zero_le _)]
+  simp [logRange_logEv, List.range_eq_range', crc8]
+
+theorem crc16_access (mem : List Byte) (len seed : BitVec 16) :
+    crc16G (listRd mem) logEv len seed [] =
+      if len.toNat ≤ mem.length then
+        some (crc16 (mem.take len.toNat) seed, (List.range len.toNat).map Ev.rd) else none := by
+  rw [crc16G, whileDecG_spec crc16Step logEv mem sub1_16 65536 len 0 seed [] len.isLt (Nat.zero_le _)]
+  simp [logRange_logEv, List.range_eq_range', crc16]
+
+theorem mmcCrc7_access (mem : List Byte) (len : BitVec 8) :
+    mmcCrc7G (listRd mem) logEv len [] =
+      if len.toNat ≤ mem.length then
+        some (mmcCrc7 (mem.take len.toNat), (List.range len.toNat).map Ev.rd) else none := by
+  have hl : len.toNat < 256 := len.isLt
+  rw [mmcCrc7G, forUpG_spec mmcStep logEv mem len 257 0 0#8 [] (by simp) (by simp; omega) (by simp)]
+  by_cases h : len.toNat ≤ mem.length <;>
+    simp [h, logRange_logEv, List.range_eq_range', mmcCrc7]
+
+/-- `igris_crc32` with `uint32_t length`, `uint32_t bodySize/tailSize/i` and the
+32-bit product `4 * i`: for EVERY `length` of the parameter's type (all
+`length < 2^32`) the counter loop is the list-level word fold of the first
+`length` bytes — no counter wraps, no word is skipped or read twice.  (With a
+16-bit `bodySize`/`i`, seeded change `C17-crc32-bodysize-uint16`, this is false
+from `length = 2^18` on: the theorem documents the width the proof needs.) -/
+theorem crc32_access (mem : List Byte) (length seed : BitVec 32) :
+    crc32G (listRd mem) logEv length seed [] =
+      if length.toNat ≤ mem.length then
+        some (crc32Words (mem.take length.toNat) seed, (List.range length.toNat).map Ev.rd) else none := by
+  rw [crc32G_spec]
+  simp [logRange_logEv, List.range_eq_range']
+
+/-- the same for any log (in particular the driver's `logNone` on long
+messages) and tied to the `Nat`-length model of the earlier rounds -/
+theorem crc32_counter_width {τ : Type} (emit : Nat → τ → τ) (mem : List Byte) (n : Nat) (seed : BitVec 32) (t : τ)
+    (hn : n < 2 ^ 32) (hm : n ≤ mem.length) :
+    (crc32G (listRd mem) emit (BitVec.ofNat 32 n) seed t).map Prod.fst = crc32 mem n seed := by
+  have e : (BitVec.ofNat 32 n).toNat = n := by simp; omega
+  rw [crc32G_spec, e, if_pos hm, crc32_reads_in_range mem n seed hm]; rfl
+
+example : (5 : Nat) < 2 ^ 32 ∧ 5 ≤ ([1, 2, 3, 4, 5, 6] : List Byte).length := by decide
+
+/-- totality of the `Nat`-length model of the earlier rounds (next to
+`crc32_reads_in_range`, which assumes `length ≤ mem.length`): it completes
+iff `[0, length)` is mapped -/
+theorem crc32_total (mem : List Byte) (length : Nat) (seed : BitVec 32) :
+    crc32 mem length seed =
+      if length ≤ mem.length then some (crc32Words (mem.take length) seed) else none := by
+  by_cases h : length ≤ mem.length
+  · rw [if_pos h, crc32_reads_in_range mem length seed h]
+  · rw [if_neg h, crc32_short mem length seed (by omega)]
+
+/-- the C-width index model and the `Nat`-length model agree on every memory
+and every length of the parameter's type, faults included -/
+theorem crc32_models_agree {τ : Type} (emit : Nat → τ → τ) (mem : List Byte) (n : Nat) (seed : BitVec 32) (t : τ)
+    (hn : n < 2 ^ 32) :
+    (crc32G (listRd mem) emit (BitVec.ofNat 32 n) seed t).map Prod.fst = crc32 mem n seed := by
+  have e : (BitVec.ofNat 32 n).toNat = n := by simp; omega
+  rw [crc32G_spec, e, crc32_total]
+  split <;> rfl
+
+example : (7 : Nat) < 2 ^ 32 := by decide
+
+/-- why the widths matter: with 16-bit `bodySize`/`i` (seeded change
+`C17-crc32-bodysize-uint16`) a call with `length = 2^18` processes no word at
+all — it returns the seed without a single read even when nothing is mapped,
+where the routine reads all 262144 bytes (`crc32_access`: it faults) -/
+theorem crc32_uint16_counter_witness (seed : BitVec 32) :
+    crc32GNarrow (listRd []) logEv 262144#32 seed [] = some (seed, []) ∧
+    crc32G (listRd []) logEv 262144#32 seed [] = none := by
+  constructor
+  · rfl
+  · rw [crc32_access]; rfl
+
+/-- no routine ever stores into its buffer, and no access is outside `[0, len)`:
+said about the logs the five index-level models return -/
+theorem accesses_are_reads_below_len (mem : List Byte) (l8 s8 : BitVec 8) (l16 s16 : BitVec 16) (l32 s32 : BitVec 32) :
+    (∀ v t, crc8TableG (listRd mem) logEv l8 s8 [] = some (v, t) → ∀ e ∈ t, ∃ off, e = Ev.rd off ∧ off < l8.toNat) ∧
+    (∀ v t, crc8G (listRd mem) logEv l8 s8 [] = some (v, t) → ∀ e ∈ t, ∃ off, e = Ev.rd off ∧ off < l8.toNat) ∧
+    (∀ v t, crc16G (listRd mem) logEv l16 s16 [] = some (v, t) → ∀ e ∈ t, ∃ off, e = Ev.rd off ∧ off < l16.toNat) ∧
+    (∀ v t, mmcCrc7G (listRd mem) logEv l8 [] = some (v, t) → ∀ e ∈ t, ∃ off, e = Ev.rd off ∧ off < l8.toNat) ∧
+    (∀ v t, crc32G (listRd mem) logEv l32 s32 [] = some (v, t) → ∀ e ∈ t, ∃ off, e = Ev.rd off ∧ off < l32.toNat) := by
+  have key : ∀ (n : Nat) (t : List Ev), t = (List.range n).map Ev.rd → ∀ e ∈ t, ∃ off, e = Ev.rd off ∧ off < n := by
+    intro n t ht e he
+    subst ht
+    obtain ⟨off, ho, rfl⟩ := List.mem_map.mp he
+    exact ⟨off, rfl, List.mem_range.mp ho⟩
+  refine ⟨?_, ?_, ?_, ?_, ?_⟩ <;> intro v t h
+  · rw [crc8Table_access] at h; split at h <;> simp at h; exact key _ _ h.2.symm
+  · rw [crc8_access] at h; split at h <;> simp at h; exact key _ _ h.2.symm
+  · rw [crc16_access] at h; split at h <;> simp at h; exact key _ _ h.2.symm
+  · rw [mmcCrc7_access] at h; split at h <;> simp at h; exact key _ _ h.2.symm
+  · rw [crc32_access] at h; split at h <;> simp at h; exact key _ _ h.2.symm
+
+/-- the `Array`-backed read function of the driver is the list one -/
+theorem driver_memory (a : Array Byte) : arrRd a = listRd a.toList := arrRd_eq a
+
+/-- the byte tables the driver uses for long messages are the model's byte
+steps, so its folds are the routines -/
+theorem driver_tables (data : List Byte) (s8 : BitVec 8) (s16 : BitVec 16) :
+    data.foldl (tabStep8 strmTab) s8 = strmcrc8 s8 data ∧
+    data.foldl (tabStep8 dowTab) s8 = crc8 data s8 ∧
+    data.foldl (tabStep8 tblTab) s8 = crc8Table data s8 ∧
+    data.foldl (tabStep8 mmcTab) 0#8 >>> 1 = mmcCrc7 data ∧
+    data.foldl tabStep16 s16 = crc16 data s16 := by
+  rw [strmTab_step, dowTab_step, tblTab_step, mmcTab_step, c16Tab_step]
+  exact ⟨rfl, rfl, rfl, rfl, rfl⟩
+
+/-! ## the streaming CRC-8 object: byte at a time, split anywhere, re-used -/
+
+theorem strmRun_feed (crc : BitVec 8) (data : List Byte) :
+    strmRun crc (data.map StrmOp.feed) = strmcrc8 crc data := by
+  induction data generalizing crc with
+  | nil => rfl
+  | cons b bs ih => simp only [List.map_cons, strmRun, ih, strmcrc8, List.foldl_cons]
+
+theorem strmRun_append (crc : BitVec 8) (p q : List StrmOp) :
+    strmRun crc (p ++ q) = strmRun (strmRun crc p) q := by
+  induction p generalizing crc with
+  | nil => rfl
+  | cons o os ih => cases o <;> simp only [List.cons_append, strmRun, ih]
+
+/-- byte-at-a-time = one-shot for every split of every input: however the
+message is cut into pieces fed one after the other into the same object -/
+theorem strm_pieces (seed : BitVec 8) (pieces : List (List Byte)) :
+    strmRun seed (pieces.flatMap fun p => p.map StrmOp.feed) = strmcrc8 seed pieces.flatten := by
+  induction pieces generalizing seed with
+  | nil => rfl
+  | cons p ps ih =>
+    simp only [List.flatMap_cons, List.flatten_cons, strmRun_append, strmRun_feed, ih, strmcrc8_chain]
+
+/-- re-initialised between messages: the history of the object is forgotten -/
+theorem strm_reinit (crc v : BitVec 8) (before : List StrmOp) (m : List Byte) :
+    strmRun crc (before ++ StrmOp.init v :: m.map StrmOp.feed) = strmcrc8 v m := by
+  rw [strmRun_append]; simp only [strmRun, strmRun_feed]
+
+/-- NOT re-initialised: the second message is checksummed as the continuation
+of the first (the CRC of the concatenation) … -/
+theorem strm_no_reinit (seed : BitVec 8) (m1 m2 : List Byte) :
+    strmRun seed (m1.map StrmOp.feed ++ m2.map StrmOp.feed) = strmcrc8 seed (m1 ++ m2) := by
+  rw [strmRun_append, strmRun_feed, strmRun_feed, strmcrc8_chain]
+
+/-- … in particular after a complete frame (message + its CRC, residue 0) the
+next message is computed with seed 0 instead of the protocol's seed -/
+theorem strm_no_reinit_after_frame (seed : BitVec 8) (m m2 : List Byte) :
+    strmRun seed ((m ++ [strmcrc8 seed m]).map StrmOp.feed ++ m2.map StrmOp.feed) = strmcrc8 0#8 m2 := by
+  rw [strmRun_append, strmRun_feed, strmRun_feed, strmcrc8_residue]
+
+/-- and that is a different value in general (gstuff seeds with 0xFF) -/
+theorem strm_no_reinit_witness : strmcrc8 0#8 [0x31] ≠ strmcrc8 0xFF#8 [0x31] := by decide
+
+/-! ## finding C17-crc32-split, stated exactly
+
+`crc32_chain_partial`: chaining holds at every split point that is a multiple
+of four.  Conversely for every other split length there is a message for which
+it fails, so the set of split points at which `igris_crc32` may be chained is
+exactly the multiples of four; and the law that does hold for every split is
+`crc32_chain_general`: the 1–3 bytes behind the last word boundary must be
+fed again together with the next piece. -/
+
+theorem crc32_chain_general (seed : BitVec 32) (a b : List Byte) :
+    crc32Words (a ++ b) seed =
+      crc32Words (a.drop (4 * (a.length / 4)) ++ b) (crc32Words (a.take (4 * (a.length / 4))) seed) := by
+  have h : a ++ b = a.take (4 * (a.length / 4)) ++ (a.drop (4 * (a.length / 4)) ++ b) := by
+    rw [← List.append_assoc, List.take_append_drop]
+  conv => lhs; rw [h]
+  exact crc32Words_append_aligned _ _ _ (by rw [List.length_take]; omega)
+
+theorem crc32_chain_iff_split_mod4 (n : Nat) :
+    (∀ (a b : List Byte) (seed : BitVec 32), a.length = n →
+        crc32Words (a ++ b) seed = crc32Words b (crc32Words a seed)) ↔ n % 4 = 0 := by
+  constructor
+  · intro h
+    have hz := h (List.replicate n 0#8) [1#8] 0#32 List.length_replicate
+    rw [zeros_append, zeros_crc] at hz
+    have hr : n % 4 < 4 := Nat.mod_lt _ (by decide)
+    match hm : n % 4, hr with
+    | 0, _ => rfl
+    | 1, _ => rw [hm] at hz; revert hz; decide +kernel
+    | 2, _ => rw [hm] at hz; revert hz; decide +kernel
+    | 3, _ => rw [hm] at hz; revert hz; decide +kernel
+  · intro h a b seed ha
+    exact crc32_chain_partial seed a b (by rw [ha]; exact h)
+
+/-! ## the tables of crc.c are generated by the polynomials -/
+
+/-- `dscrc2x16_table`: entry `i` of the first half is the Dallas CRC register
+(reflected polynomial 0x8C, bit-serial reference) after one zero byte from the
+register `i`, entry `16+i` from the register `i << 4` -/
+theorem dscrcTable_generated :
+    dscrcTable = (List.range 16).map (fun i => refLsb 0x8C#8 (BitVec.ofNat 8 i) [0#8]) ++
+                 (List.range 16).map (fun i => refLsb 0x8C#8 (BitVec.ofNat 8 (16 * i)) [0#8]) := by
+  decide +kernel
+
+/-- the 256-entry byte table the two halves stand for (all 256 entries):
+`tbl[x & 15] ^ tbl[16 + (x >> 4)]` = the bit-serial register after one zero
+byte from register `x` = remainder of `x·X^8` -/
+theorem dscrcTable_all256 :
+    ∀ x : BitVec 8, dscrcTable.getD (x &&& 0x0f#8).toNat 0 ^^^ dscrcTable.getD (16 + ((x >>> 4) &&& 0x0f#8).toNat) 0
+      = refLsb 0x8C#8 x [0#8] := by
+  decide +kernel
+
+/-- `crcTable` of `igris_crc32`: entry `k` = four bit-serial steps (polynomial
+0x04C11DB7, MSB first) from the register `k << 28` -/
+theorem crc32Table_generated :
+    crc32Table = (List.range 16).map (fun k =>
+      [false, false, false, false].foldl (refBitMsb 0x04C11DB7#32) (BitVec.ofNat 32 k <<< 28)) := by
+  decide +kernel
+
+/-- the op `tbl32` reads `crcTable` out of the compiled routine (the table is a
+function-local static): `igris_crc32` of the word `k` from seed 0 is entry `k` -/
+theorem crc32Table_readout :
+    (List.range 16).map (fun k => crc32 [BitVec.ofNat 8 k, 0, 0, 0] 4 0#32) = crc32Table.map some := by
+  decide +kernel
+
+
+/-! ## every routine against the mathematical definition: the remainder of
+`M(X)·X^w + init(X)·X^|M|` modulo the generator polynomial over GF(2)
+(`Gf2.lean`: schoolbook long division on coefficient lists, no shift register,
+no table).  `toBits` = the register as coefficients, most significant bit
+first; `toBitsRev` = bit 0 first (reflected CRC). -/
+
+/-- `igris_strmcrc8`: generator X^8+X^5+X^4+1, bytes most significant bit first -/
+theorem strmcrc8_eq_gf2 (seed : BitVec 8) (data : List Byte) :
+    toBits (strmcrc8 seed data) = crcPoly g8_31 (toBits seed) (data.flatMap bitsMsbFirst) := by
+  rw [strmcrc8_eq_ref]; exact refMsb_eq_crcPoly (n := 7) 0x31#8 seed data
+
+/-- `igris_crc8` (Dallas/Maxim): the same generator X^8+X^5+X^4+1, reflected:
+bytes least significant bit first, the register read from bit 0 -/
+theorem crc8_eq_gf2 (data : List Byte) (seed : BitVec 8) :
+    toBitsRev (crc8 data seed) = crcPoly g8_31 (toBitsRev seed) (data.flatMap bitsLsbFirst) := by
+  rw [crc8_eq_ref]; exact refLsb_eq_crcPoly (n := 7) 0x8C#8 seed data
+
+theorem crc8Table_eq_gf2 (data : List Byte) (seed : BitVec 8) :
+    toBitsRev (crc8Table data seed) = crcPoly g8_31 (toBitsRev seed) (data.flatMap bitsLsbFirst) := by
+  rw [crc8_table_eq_serial, crc8_eq_gf2]
+
+/-- `igris_crc16`: generator X^16+X^12+X^5+1 (CCITT), bytes most significant bit first -/
+theorem crc16_eq_gf2 (data : List Byte) (seed : BitVec 16) :
+    toBits (crc16 data seed) = crcPoly g16_1021 (toBits seed) (data.flatMap bitsMsbFirst) := by
+  rw [crc16_eq_ref]; exact refMsb_eq_crcPoly (n := 15) 0x1021#16 seed data
+
+/-- `igris_mmc_crc7`: the returned byte is a 7-bit value whose bits are the
+remainder modulo X^7+X^3+1 (initial register 0) -/
+theorem mmcCrc7_eq_gf2 (data : List Byte) :
+    ∃ r : BitVec 7, mmcCrc7 data = r.zeroExtend 8 ∧
+      toBits r = crcPoly g7_09 (List.replicate 7 false) (data.flatMap bitsMsbFirst) :=
+  ⟨refMsb 7 0x09#7 0#7 data, mmcCrc7_eq_crc7 data, refMsb_eq_crcPoly (n := 6) 0x09#7 0#7 data⟩
+
+/-- `igris_crc32` on an exactly sized buffer: generator X^32+X^26+…+1
+(0x04C11DB7), the message taken in the routine's word order (`crc32BitOrder`) -/
+theorem crc32_eq_gf2 (data : List Byte) (seed : BitVec 32) :
+    (crc32 data data.length seed).map toBits =
+      some (crcPoly g32_04C11DB7 (toBits seed) ((crc32BitOrder data).flatMap bitsMsbFirst)) := by
+  rw [crc32_eq_ref, Option.map_some]
+  exact congrArg some (refMsb_eq_crcPoly (n := 31) 0x04C11DB7#32 seed (crc32BitOrder data))
+
+/-- anchors for the polynomial definition itself (no register, no routine
+involved): catalogue check values of "123456789" by long division —
+CRC-16/XMODEM 0x31C3, CRC-8/MAXIM-DOW 0xA1 (reflected), CRC-7/MMC 0x75,
+CRC-8/NRSC-5 0xF7 (init 0xFF), CRC-32/MPEG-2 0x0376E6E7 (init 0xFFFFFFFF) -/
+theorem gf2_check_values :
+    let m9 : List Byte := [0x31, 0x32, 0x33, 0x34, 0x35, 0x36, 0x37, 0x38, 0x39]
+    crcPoly g16_1021 (List.replicate 16 false) (m9.flatMap bitsMsbFirst) = toBits 0x31C3#16 ∧
+    crcPoly g8_31 (List.replicate 8 false) (m9.flatMap bitsLsbFirst) = toBitsRev 0xA1#8 ∧
+    crcPoly g7_09 (List.replicate 7 false) (m9.flatMap bitsMsbFirst) = toBits 0x75#7 ∧
+    crcPoly g8_31 (List.replicate 8 true) (m9.flatMap bitsMsbFirst) = toBits 0xF7#8 ∧
+    crcPoly g32_04C11DB7 (List.replicate 32 true) (m9.flatMap bitsMsbFirst) = toBits 0x0376E6E7#32 := by
+  decide +kernel
 
 end Igris.C17
